@@ -1,9 +1,14 @@
 import HapVerif.Drv.Tlv
+import HapVerif.Drv.Crypto
+import HapVerif.Drv.SecureFrame
 
 /-! Line protocol: one operation per stdin line -> one canonical line on stdout. -/
 
+def handlers : List (List String → Option String) :=
+  [HapVerif.Drv.Tlv.handle, HapVerif.Drv.Crypto.handle, HapVerif.Drv.SecureFrame.handle]
+
 def dispatch (toks : List String) : String :=
-  match HapVerif.Drv.Tlv.handle toks with
+  match handlers.findSome? (fun h => h toks) with
   | some r => r
   | none => "bad-op"
 
